@@ -129,9 +129,13 @@ def gen_module(rng, helper_name):
                 out += klass(indent)
             else:
                 pad = ' ' * indent
-                kind = rng.choice(['if', 'try', 'with', 'mainelse', 'for', 'while', 'match', 'tryelse'])
+                kind = rng.choice(['if', 'try', 'with', 'mainelse', 'for', 'while', 'match', 'tryelse', 'notmain', 'notmain'])
                 if kind == 'if':
                     out += [pad + 'if True:'] + block(indent + 4, depth + 1)
+                elif kind == 'notmain':
+                    # the negated guard ("imported, not run as a script") and look-alikes of the script guard: their bodies DO run on import
+                    test = rng.choice(["__name__ != '__main__'", "'__main__' != __name__", "__name__ not in ('__main__',)", "__name__ >= ''", "not __name__ == '__main__'"])
+                    out += [pad + 'if %s:' % test] + block(indent + 4, depth + 1)
                 elif kind == 'try':
                     out += [pad + 'try:'] + block(indent + 4, depth + 1) + [pad + 'except ImportError:', pad + '    pass']
                 elif kind == 'with':
